@@ -770,6 +770,8 @@ def _run_history(scenario, spec, isolate):
                     out["CHECK-KEPT"] = ("ok", "REWRITTEN")
             elif label == "EDIT-ACC-A":
                 edit(env["acc"])
+            elif label == "RECONF-FILTER-A":
+                env["filter"].undesired_motifs = list(env["filter_b"].undesired_motifs)
             elif label.startswith("SEED-"):
                 np.random.seed(int(label[5:]))
             continue
@@ -780,6 +782,8 @@ def _run_history(scenario, spec, isolate):
             env2 = _build_env(spec)
             if label.endswith("-edited"):
                 edit(env2["acc"])
+            if label.endswith("-reconf"):
+                env2["filter"].undesired_motifs = list(env2["filter_b"].undesired_motifs)
             a2 = scenarios.SCENARIOS[scenario](env2)
             a, kw = [(x[2], x[3]) for x in a2 if x[0] == label][0]
         target = dsw
@@ -799,6 +803,8 @@ def k_history(p):
     hist, env = _run_history(scenario, spec, False)
     fresh = _build_env(spec)
     import scenarios as _sc
+    if any(st[0] == "RECONF-FILTER-A" for st in _sc.SCENARIOS[scenario](_build_env(spec))):
+        fresh["filter"].undesired_motifs = list(fresh["filter_b"].undesired_motifs)
     if any(st[0] == "EDIT-ACC-A" for st in _sc.SCENARIOS[scenario](_build_env(spec))):
         a_ = fresh["acc"]
         for v in range(a_.shape[0]):
@@ -876,3 +882,33 @@ def k_capacity(p):
 
 
 KINDS.update({"capacity": k_capacity})
+
+
+def k_bijection(p):
+    """C18(b): the digit -> live-arc map induced by a table at the start vertex is a bijection (two messages, first step)."""
+    import dsw
+    acc = np.array(p["acc"], dtype=int)
+    start, fast = int(p["start"]), bool(p.get("fast"))
+    table = np.array(p["table"], dtype=int) if p.get("table") is not None else None
+    firsts, digits = [], []
+    deg = int((acc[start] >= 0).sum())
+    for bits in (p["bits"], p["bits2"]):
+        r, ex = call(dsw.encode, np.array(bits, dtype=int), acc, start, is_faster=fast, shuffles=table)
+        if ex is not None or not r:
+            return False, "encode did not produce a first nucleotide (%s): outside the property" % ex
+        firsts.append(NUC.index(r[0]))
+        if fast:
+            digits.append(bits[0] * 2 + (bits[1] if len(bits) > 1 else 0) if deg == 4 else (bits[0] if deg == 2 else 0))
+        else:
+            val = int("".join(map(str, bits)), 2) if bits else 0
+            digits.append(val % deg if deg >= 2 else 0)
+    for j in firsts:
+        if acc[start][j] < 0:
+            return True, "first nucleotide %s is not a live arc of vertex %d" % (NUC[j], start)
+    if (firsts[0] == firsts[1]) != (digits[0] == digits[1]):
+        return True, "digits %s are mapped to arcs %s at vertex %d (row %s, table row %s): not a bijection" % (
+            digits, [NUC[j] for j in firsts], start, acc[start].tolist(), None if table is None else table[start].tolist())
+    return False, "bijective on this pair"
+
+
+KINDS.update({"bijection": k_bijection})
